@@ -2,38 +2,87 @@
 
 (M)  Layout.tla: Col(a,j) = ny*(a-1)+j is a bijection onto 0..ny*nlv-1 for all ny, nlv in bounds and the residual rule
      "column % ny" takes every column against its own response; the rule floor(column/nlv) is refuted by TLC (first at
-     (ny,nlv) = (2,2)).  Pls.tla (structure scope): the ledger's step guards imply its invariants.
-(C)  c03_drv fits real PLS models (X 6..40 x 1..12 of full column rank, 1..4 correlated / differently scaled responses,
-     scaling options -1..5 on both blocks, 1..rank LVs; each fit in a child with iteration budget), projects every model
-     onto the ledger (score / weight orthogonality, X = TP' + E, re-projection, recalculated = back-transformed sum of
-     b t q', residual column = recalculated - same response, located by value) and TLC validates every recorded event
-     against TracePls.tla; for integer-valued cases TLC recomputes the residual table itself through the layout map.
-(V)  the residual rule inferred from the real residual columns is fed back as ResidualIndex into Layout.tla.
+     (ny,nlv) = (2,2)).  PlsStore.tla: the per-LV storage of scores / loadings / weights writes every cell whatever the
+     relation objects <-> variables; the "one pass over the objects" variant is refuted by TLC (first at 6 objects, 7
+     variables).  Pls.tla (structure scope): the ledger's step guards imply its invariants for tall, n = p+1, square,
+     n = p-1 and wide shapes, rank at and below RankBound(n, p, xs) = min(p, n-1 | n), offsets below and above the
+     representability threshold of the tolerance functions; theorem ThRank (tall <=> bound = p; objects <= variables and
+     centred => bound = n-1 < p) is checked as an assumption of the module.
+(C)  c03_drv fits real PLS models - X 6..40 x 1..12 of every shape relation (tall, n = p+1, square, n = p-1, wide) with the
+     largest rank the shape allows, 1..4 correlated / differently scaled responses, scaling options -1..5 on both blocks,
+     1..rank LVs, plus the input classes of INPUT-CLASSES.md inside the quantifier (block-size boundaries, offsets up to 1e8
+     spreads on centred blocks, whole-block magnitudes 1e-6..1e4, tied non-representable grids, duplicate rows / tied
+     responses, fit-A / fit-A' (same shape, other data) / fit-B (other shape) / fit-A histories in one process, predictor
+     outputs that already hold other data); each fit in a child with iteration budget.  Every model is projected onto the
+     ledger (stored centring = column means of this very data, score / weight orthogonality, X = TP' + E,
+     re-projection through PLSScorePredictor with fewer / all / more LVs than the model has, PLSYPredictor from stored and
+     re-projected scores at every LV count, PLSYPredictorAllLV with and without the score output, recalculated = back-
+     transformed sum of b t q', residual column = recalculated - same response, located by value) and TLC validates every
+     recorded event against TracePls.tla; for integer-valued cases TLC recomputes the residual table itself through the
+     layout map.  Rank-deficient X (duplicate / constant predictor) and what the statement does not mention (xvarexp, bitwise
+     repeatability of a fit, PLS() once more into the model object that already holds the fit) are modelled the same way but
+     reported as EXTRA-FINDING only.
+(V)  the residual rule inferred from the real residual columns is fed back as ResidualIndex into Layout.tla; the storage
+     loop inferred from the rows of xloadings / xweights of real wide models is fed back as StoreLoop into PlsStore.tla.
 """
-import os, shutil
+import copy, os, shutil
+from concurrent.futures import ThreadPoolExecutor
 from vf import build, tlc, trace, ledgerkit
 from vf import run as hrun
 from vf.core import InfraError
 
 LEVEL = "exploration"
 READY = True
-TECHNIQUE = ("TLC model checking of Layout.tla (column layout bijection, residual rule variants) and of the Pls.tla ledger; TLC trace validation "
-             "(TracePls.tla) of residuals recorded from real PLS models against independent oracles, with the residual table of integer-valued "
-             "cases recomputed by TLC")
-LEVEL_TEXT = ("Sampled exploration: seeded random PLS problems inside the property's quantifier are fitted by the real library and every model is "
-              "projected onto the ledger of Pls.tla; TLC validates each recorded step (orthogonality, decomposition, re-projection, recalculated "
-              "responses, residual columns through the layout map). The layout model itself is checked exhaustively for ny 1..4, nlv 1..12.")
-LEVEL_NOTE = ("Trusts TLC, the harness's double-precision residual evaluation and quantisation (self-tested by a binding test that corrupts one logged "
-              "residual), LAPACK dgesdd for the admission test (rank / condition number). Inputs are sampled, not exhaustive; X is admitted with "
-              "condition number <= 1e3 after preprocessing and scale factors away from the library's zero-scale guards (C10's business).")
+TECHNIQUE = ("TLC model checking of Layout.tla (column layout bijection, residual rule variants), PlsStore.tla (per-LV storage for every relation "
+             "objects <-> variables, loop variants) and of the Pls.tla ledger (rank-aware quantifier, tolerance functions of the logged offsets); TLC trace "
+             "validation (TracePls.tla) of residuals recorded from real PLS models of every shape relation and input class against independent oracles, "
+             "with the residual table of integer-valued cases recomputed by TLC")
+LEVEL_TEXT = ("Sampled exploration: seeded random PLS problems inside the property's quantifier - tall, n = p+1, square, n = p-1 and wide X with up to "
+              "rank(X) = min(p, n-1 | n) latent variables, and the input classes K1-K5, K7, K8 of INPUT-CLASSES.md - are fitted by the real library and "
+              "every model is projected onto the ledger of Pls.tla; TLC validates each recorded step (orthogonality, decomposition, re-projection with "
+              "fewer / all / more LVs, responses from stored and re-projected scores, recalculated responses, residual columns through the layout map, "
+              "stored centring against the data). "
+              "The layout model is checked exhaustively for ny 1..4, nlv 1..12, the storage model for 6..40 objects x 1..12 variables x 1..4 responses.")
+LEVEL_NOTE = ("Trusts TLC, the harness's double-precision residual evaluation and quantisation (self-tested by binding tests that corrupt one logged "
+              "field per event kind), LAPACK dgesdd for the admission test (numerical rank / condition number). Inputs are sampled, not exhaustive; X is "
+              "admitted with sigma_1/sigma_rank <= 1e3 after preprocessing and, for scaled blocks, scale factors away from the library's zero-scale "
+              "guards (C10's business). Reading of the statement: 'full column rank' cannot hold for objects <= variables although the quantifier "
+              "(6..40 x 1..12, nlv in 1..rank) contains such X; the ledger reads it shape-wise (rank = min(p, n-1 when centred, n otherwise)), every "
+              "identity of the statement is evaluated there. Classes left out because the quantifier / statement excludes them: K6 (PLS, "
+              "PLSScorePredictor, PLSYPredictor, PLSYPredictorAllLV reach no MT_* kernel and spawn no workers), K9 (the property does not mention "
+              "missing values; values stay below 1e7, far from the MISSING code), K10 (no labels), constant response columns (statement: non-constant "
+              "Y), K3 offsets on a block used uncentred (option -1: the offset is signal there, no input-computable bound holds; kept <= 0.5 spreads), "
+              "K4 tiny units on a scaled block, units above 1e4 (entries would pass 1e7) and per-column unit systems 2^+-30 (zero-scale guards / "
+              "cond > 1e3). Rank-deficient X, xvarexp, bitwise repeat-fit and a second PLS() into a used model object are outside the statement: "
+              "EXTRA-FINDING only (the last one aborts under ASan/UBSan on the pinned tree: PLS:history:refit-into-used-model, candidate repair "
+              "fixes/C03-pls-refit-used-model.diff).")
 
 TOL = 10000
 STRUCT = ("tortho", "wortho", "recon", "reproj")
 IMPL = ("pnorm", "qnorm", "udefl", "binner")
+EXTRA_EVENTS = ("VarExp", "Hist", "Refit")
+CTX_FIELDS = ("n", "p", "ny", "nlv", "xs", "ys", "noise", "rank", "shape", "kind", "tag", "offx", "offy", "inst", "reuse")
+KINDS = ("base", "wide", "int", "square", "wide1", "tall1", "offset", "intwide", "magn", "ties", "block", "degen", "hist", "widerank")
+EVENT_KINDS = ("Fit", "Prep", "Lv", "Score", "YPred", "AllLv", "VarExp", "Col", "Resid", "Tab", "Hist", "Refit", "End")
+
+
+def _tol_y(cx):
+    """mirror of TolY / TolXfull / TolMeanY of Pls.tla, used ONLY to drop same-signature duplicates and to name the failed field (TLC decides)"""
+    return TOL + cx.get("offy", 0) // 1000
+
+
+def _tol_xfull(cx):
+    return TOL + cx.get("n", 0) * (cx.get("offx", 0) // 4000)
+
+
+def _tol_meany(cx):
+    return TOL + cx.get("n", 0) * (cx.get("offy", 0) // 4000)
 
 
 def _cls(cx):
-    return "ny%s:nlv%s" % (">1" if cx.get("ny", 1) > 1 else "1", ">1" if cx.get("nlv", 1) > 1 else "1")
+    c = "ny%s:nlv%s" % (">1" if cx.get("ny", 1) > 1 else "1", ">1" if cx.get("nlv", 1) > 1 else "1")
+    sh = cx.get("shape", "tall")
+    return c if sh == "tall" else c + ":" + sh
 
 
 def _sig(ev):
@@ -46,7 +95,7 @@ def _sig(ev):
     if e == "Col":
         if ev["found"] != ev["col"]:
             return "PLS:layout:%s" % c, "case %s %s: (a=%d,j=%d) expected in column %d of recalculated_y, found in column %d" % (ev.get("case"), cx, ev["a"], ev["j"], ev["col"], ev["found"])
-        bad = "recalcErr" if ev["recalcErr"] > TOL else "allErr" if ev["allErr"] > TOL else "ledger"
+        bad = "recalcErr" if ev["recalcErr"] > _tol_y(cx) else "allErr" if ev["allErr"] > _tol_y(cx) else "ledger"
         return "PLS:%s:%s" % (bad, c), "case %s %s: column %d (a=%d,j=%d) %s = %.3g (relative to |y_j - mean|)" % (ev.get("case"), cx, ev["col"], ev["a"], ev["j"], bad, ev.get(bad, 0) * 1e-12)
     if e == "Resid":
         return "PLS:residErr:%s" % c, ("case %s %s: recalc_residuals column %d (a=%d, response %d) is not recalculated - observed response %d: relative error >= %.3g; "
@@ -54,13 +103,36 @@ def _sig(ev):
     if e == "Tab":
         return "PLS:residTable:%s" % c, "case %s %s: TLC recomputed recalculated - observed over the logged integer tables through Col(a,j): the residual table differs" % (ev.get("case"), cx)
     if e == "End":
-        return "PLS:xfull:%s" % c, "case %s %s: at full rank X is not reproduced by T P' (relative %.3g) or counts differ: %s" % (ev.get("case"), cx, ev.get("xfull", 0) * 1e-12, ev)
+        return "PLS:xfull:%s" % c, "case %s %s: at nlv = rank X is not reproduced by T P' (relative %.3g) or counts differ: %s" % (ev.get("case"), cx, ev.get("xfull", 0) * 1e-12, ev)
+    if e == "Prep":
+        bad = "centring" if (ev["xavg"] > _tol_xfull(cx) or ev["yavg"] > _tol_meany(cx)) else "scale-definition"
+        return "PLS:%s:%s" % (bad, c), ("case %s %s: stored preprocessing vectors against this data: x centring off by %.3g, y centring off by %.3g spreads (stored average vs column mean); "
+                                        "scale factors off by %.3g (x) / %.3g (y) relative to the option's definition" % (ev.get("case"), cx, ev["xavg"] * 1e-12, ev["yavg"] * 1e-12, ev["xscl"] * 1e-12, ev["yscl"] * 1e-12))
+    if e == "Score":
+        return "PLS:scorePredictor:%s" % c, ("case %s %s: PLSScorePredictor asked for %d LVs returned %d columns (expected min(req, nlv)), worst column error %.3g against the training scores"
+                                             % (ev.get("case"), cx, ev["req"], ev["got"], ev["err"] * 1e-12))
+    if e == "YPred":
+        return "PLS:yPredictor:%s" % c, ("case %s %s: PLSYPredictor(%s scores, %d LVs) differs from the back-transformed sum of b t q' over min(a, nlv) LVs by %.3g (relative to |y_j - mean|)"
+                                         % (ev.get("case"), cx, "re-projected" if ev["src"] else "stored", ev["a"], ev["err"] * 1e-12))
+    if e == "AllLv":
+        return "PLS:allLvPredictor:%s" % c, ("case %s %s: PLSYPredictorAllLV with the score output: %d response columns (expected ny*nlv), %d score columns (expected nlv), score error %.3g, response error %.3g"
+                                             % (ev.get("case"), cx, ev["cols"], ev["scols"], ev["scoreErr"] * 1e-12, ev["err"] * 1e-12))
+    if e == "VarExp":
+        return "PLS:xvarexp:%s" % c, "case %s %s: xvarexp[%d] differs from 100 t't / ss(X) by %.3g" % (ev.get("case"), cx, ev["a"], ev["err"] * 1e-12)
+    if e == "Hist":
+        return "PLS:history:refit-differs", "case %s %s: the same problem fitted again in the same process after %d other fit(s) does not return bitwise the same model" % (ev.get("case"), cx, ev["fits"] - 1)
+    if e == "Refit":
+        if ev["rc"] != 0:
+            return "PLS:history:refit-into-used-model:abort:rc%d" % ev["rc"], ("case %s %s: PLS() called again with the same data into the model object that already holds the fit does not return "
+                                                                             "(rc=%d: 99 AddressSanitizer abort, 98 UBSan, 1000+n signal): the vectors / tables of a used model are appended to, not rebuilt, "
+                                                                             "and recalc_residuals is then written past its ny*nlv columns (pls.c 'compute residuals')" % (ev.get("case"), cx, ev["rc"]))
+        return "PLS:history:refit-into-used-model", ("case %s %s: PLS() called again with the same data into the model object that already holds the fit returns %d coefficients b (model has %d LVs), "
+                                                     "%d recalculated columns (ny*nlv = %d), %d explained variances; same numbers as before: %s - the vectors / tables of a used model are appended to, not rebuilt"
+                                                     % (ev.get("case"), cx, ev["bsize"], cx.get("nlv", 0), ev["reccols"], cx.get("ny", 0) * cx.get("nlv", 0), ev["varexp"], "yes" if ev["same"] else "no"))
     if e == "Abort":
         return "PLS:fit:abort:rc%s" % ev.get("rc"), "case %s: the fit did not return (rc=%s: 97 iteration budget, 124 watchdog, 99/98 sanitizer, 1000+n signal)" % (ev.get("case"), ev.get("rc"))
     if e == "Shape":
         return "PLS:shape:%s" % c, "case %s %s: model tables have unexpected shapes %s" % (ev.get("case"), cx, ev)
-    if e == "Fit":
-        return "PLS:quantifier", "generated case outside the ledger's quantifier: %s" % ev
     return "PLS:trace:%s" % e, "unexpected event %s" % ev
 
 
@@ -81,6 +153,26 @@ def infer_variant(events):
     return ("mod_ny" if mod_ok else "div_nlv" if div_ok else "other"), discriminating
 
 
+def infer_store(events):
+    """which rows of xloadings / xweights hold a stored number in models with fewer objects than variables?"""
+    wide = own = fused = 0
+    for ev in events:
+        if ev.get("e") != "Lv" or "cx" not in ev or "prows" not in ev:
+            continue
+        n, p = ev["cx"]["n"], ev["cx"]["p"]
+        # integer / gridded / constant-column data can carry exact zeros in a weight or loading legitimately: generic real-valued kinds only
+        if n >= p or ev["cx"].get("kind") in ("int", "intwide", "ties", "degen"):
+            continue
+        wide += 1
+        if ev["prows"] > n or ev["wrows"] > n:
+            own += 1
+        if ev["prows"] <= n and ev["wrows"] <= n:
+            fused += 1
+    if wide == 0:
+        return None, 0
+    return ("own" if own == wide else "fused_objects" if fused == wide else "other"), wide
+
+
 def model_part(ctx):
     cfg = "MC_Layout_quick.cfg" if ctx.quick else "MC_Layout_thorough.cfg"
     r = tlc.run("Layout", cfg, workers=4, timeout=600)
@@ -88,14 +180,19 @@ def model_part(ctx):
     if not r.ok:
         raise InfraError("Layout.tla: %s fails for the rule column %% ny:\n%s" % (r.violation, r.trace_text[:1200]))
     ctx.note("Layout.tla: bijection and residual rule 'col %% ny' hold on %d (ny,nlv) pairs" % r.distinct)
-    r = tlc.run("Pls", "MC_Pls_struct.cfg", workers=4, timeout=600)
+    r = tlc.run("PlsStore", "MC_PlsStore.cfg" if ctx.quick else "MC_PlsStore_thorough.cfg", workers=2, timeout=600)
+    ctx.add_tlc(r, "mc_plsstore_own")
+    if not r.ok:
+        raise InfraError("PlsStore.tla: %s fails for the own-length storage loops:\n%s" % (r.violation, r.trace_text[:1200]))
+    ctx.note("PlsStore.tla: every cell stored with own-length loops on %d (objects, variables, responses) triples" % r.distinct)
+    r = tlc.run("Pls", "MC_Pls_struct.cfg" if ctx.quick else "MC_Pls_struct_thorough.cfg", workers=4, timeout=1500)
     ctx.add_tlc(r, "mc_pls_struct")
     if not r.ok:
         raise InfraError("Pls.tla (structure scope): ledger invariant %s fails:\n%s" % (r.violation, r.trace_text[:1500]))
-    z = ledgerkit.never_taken(r, ("PFit", "PLv", "PCol", "PResid", "PEnd"))
+    z = ledgerkit.never_taken(r, ("MFitS", "PLv", "PCol", "PResid", "MScore", "MYPred", "MAllLv", "MVarExp", "MHist", "MRefit", "PEnd"))
     if z:
         raise InfraError("Pls.tla (structure scope): actions never taken: %s" % z)
-    ctx.note("Pls.tla ledger (structure scope): %d states, invariants hold, every action taken" % r.distinct)
+    ctx.note("Pls.tla ledger (structure scope, all shape relations): %d states, invariants hold, every action taken" % r.distinct)
 
 
 def variant_model(ctx, rd, variant):
@@ -105,6 +202,49 @@ def variant_model(ctx, rd, variant):
     r = tlc.run("Layout", cfg, workers=2, timeout=300)
     ctx.add_tlc(r, "mc_layout_variant_%s" % variant)
     return r
+
+
+def store_model(ctx, rd, variant):
+    """(V) the storage loop the code implements, as a constant of PlsStore.tla"""
+    cfg = tlc.write_cfg(os.path.join(rd, "MC_PlsStore_variant.cfg"), spec="SSpec", constants=dict(MaxN=40, MaxP=12, MaxNy=4, StoreLoop=variant),
+                        invariants=["EveryCellStored", "ThLost", "ThFusedOnlyWide"], deadlock=False)
+    r = tlc.run("PlsStore", cfg, workers=2, timeout=300)
+    ctx.add_tlc(r, "mc_plsstore_variant_%s" % variant)
+    return r
+
+
+def _classes(ctx, f):
+    """measured class counts (INPUT-CLASSES.md) of one executed case; shape / inst tags were re-derived by TLC (TFit)"""
+    n, p, nlv, rank = f["n"], f["p"], f["nlv"], f["rank"]
+    ctx.cls("K1:" + f["shape"])
+    ctx.cls("K1:ny=1" if f["ny"] == 1 else "K1:ny>1")
+    ctx.cls("K1:nlv=rank" if nlv == rank else "K1:nlv=1" if nlv == 1 else "K1:1<nlv<rank")
+    if nlv == 1 and rank == 1:
+        ctx.cls("K1:nlv=1")
+    if p == 1:
+        ctx.cls("K1:single-column")
+    for nm, v in (("n", n), ("p", p)):
+        if v % 32 == 0:
+            ctx.cls("K2:%s=32k" % nm)
+        elif v >= 31 and v % 32 in (1, 31):
+            ctx.cls("K2:%s=32k+-1" % nm)
+        if v % 4 == 0:
+            ctx.cls("K2:%s=4k" % nm)
+        elif v % 4 in (1, 3):
+            ctx.cls("K2:%s=4k+-1" % nm)
+    for nm in ("offx", "offy"):
+        o = f.get(nm, 0)
+        if o >= 1000:
+            ctx.cls("K3:%s>=%s" % (nm, "1e6" if o >= 1000000 else "1e3"))
+    for nm in ("lgx", "lgy"):
+        g = f.get(nm, 0)
+        if g:
+            ctx.cls("K4:%s=1e%+d" % (nm[2], g))
+    t = f.get("tag", "-")
+    if t.startswith(("K5", "K7", "K8")):
+        ctx.cls(t + ("" if f.get("inst", 1) else ":rank-deficient(extra)"))
+    if f.get("reuse"):
+        ctx.cls("K7:outputs-hold-other-data")
 
 
 def conformance(ctx, total, parts, first=0, only=None):
@@ -120,14 +260,15 @@ def conformance(ctx, total, parts, first=0, only=None):
             seed = only["seed"]
         else:
             seed = ctx.seed
-            events, maxima, results = ledgerkit.drive(ctx, exe, rd, "c03_", seed, total, parts, timeout=2400)
+            events, maxima, results = ledgerkit.drive(ctx, exe, rd, "c03_", seed, total, parts, timeout=2400, workers=int(os.environ.get("VERIF_WORKERS", "8")))
         ledgerkit.sanitizer_reports(ctx, results, "PLS", lambda j: dict(kind="range", seed=j[1], first=j[2], count=j[3]))
-        ledgerkit.annotate(events)
+        ledgerkit.annotate(events, CTX_FIELDS)
         fits = [e for e in events if e["e"] == "Fit"]
         if not fits:
             raise InfraError("c03 harness produced no Fit events")
         for f in fits:
-            ctx.case((f["p"], f["ny"], f["nlv"], f["xs"], f["ys"]), f["ny"] > 1 and f["nlv"] > 1)
+            ctx.case((f["shape"], f["p"], f["ny"], f["nlv"], f["xs"], f["ys"], f["kind"]), f["ny"] > 1 and f["nlv"] > 1)
+            _classes(ctx, f)
         # the harness always logs every LV and every (a,j); anything else is its own fault, not a verdict
         blocks = tlc.split_blocks(events)
         for b in blocks:
@@ -135,24 +276,59 @@ def conformance(ctx, total, parts, first=0, only=None):
             if not f or any(e["e"] in ("Abort", "Shape") for e in b):
                 continue
             f = f[0]
-            cnt = {k: sum(1 for e in b if e["e"] == k) for k in ("Lv", "Col", "Resid", "End")}
-            if cnt != dict(Lv=f["nlv"], Col=f["ny"] * f["nlv"], Resid=f["ny"] * f["nlv"], End=1):
-                raise InfraError("c03 harness logged an incomplete block for case %s: %s" % (b[0].get("case"), cnt))
+            cnt = {k: sum(1 for e in b if e["e"] == k) for k in ("Prep", "Lv", "Col", "Resid", "End", "YPred", "AllLv", "VarExp")}
+            want = dict(Prep=1, Lv=f["nlv"], Col=f["ny"] * f["nlv"], Resid=f["ny"] * f["nlv"], End=1, YPred=f["nlv"] + 2, AllLv=1, VarExp=f["nlv"])
+            if cnt != want or sum(1 for e in b if e["e"] == "Score") not in (2, 3):
+                raise InfraError("c03 harness logged an incomplete block for case %s: %s (expected %s)" % (b[0].get("case"), cnt, want))
+        if only is None:
+            # vacuity: every input class of the schedule and every event kind really occurred
+            kinds = {k: sum(1 for f in fits if f["kind"] == k) for k in KINDS}
+            if min(kinds.values()) == 0:
+                raise InfraError("c03 generator lost an input class: %s" % kinds)
+            evk = {k: sum(1 for e in events if e["e"] == k) for k in EVENT_KINDS}
+            if min(evk.values()) == 0:
+                raise InfraError("c03 harness no longer emits every event kind: %s" % evk)
+            shapes = {s: sum(1 for f in fits if f["shape"] == s and f["inst"] and f["nlv"] == f["rank"] and f["ny"] > 1) for s in ("tall", "tall1", "square", "wide1", "wide")}
+            if min(shapes.values()) == 0:
+                raise InfraError("c03 generator lost a shape class at nlv = rank with several responses: %s" % shapes)
+            ctx.cov["kinds"] = kinds
+            ctx.cov["skipped_draws"] = sum(1 for e in events if e["e"] == "Skip")
         for b in blocks:
             f = [e for e in b if e["e"] == "Fit"]
-            if f and f[0]["ny"] > 1 and f[0]["nlv"] > 1 and len(b) < 40:
+            if f and f[0]["ny"] > 1 and f[0]["nlv"] > 1 and len(b) < 60 and f[0]["shape"] in ("wide", "wide1", "square"):
                 ctx.sample(dict(case=b[0].get("case"), seed=seed, events=b[:14]), 3)
-        ctx.cov["rule"] = ("seeded random PLS problems: n 6..40, p 1..min(12,n-2), ny 1..4, scaling options -1..5 on X and on Y, noise 0/5%/70%/600%, nlv 1..rank "
-                           "(every third case nlv = rank; every fifth case integer-valued with the tables handed to TLC); preprocessed X admitted with cond <= 1e3; "
-                           "a case = one fitted model; distinct key = (p, ny, nlv, xscaling, yscaling); non-trivial iff ny > 1 and nlv > 1")
+        ctx.cov["rule"] = ("seeded random PLS problems, input class by case index % 16: 3/16 tall (n 6..40, p 1..min(12,n-2)), wide (n 6..10 < p-1), square, n = p-1, "
+                           "n = p+1, wide/square at nlv = rank with 2..4 responses, integer-valued tall and integer-valued square/wide (tables handed to TLC), offsets "
+                           "1e2..1e8 spreads on centred blocks, whole-block units 1e-6..1e4, grids of 0.1 / (1/3) / 1e-3, block-size boundaries, duplicate rows / "
+                           "duplicate or constant predictor / tied responses, fit-A fit-A' fit-B fit-A histories; ny 1..4, scaling options -1..5 on X and on Y, noise "
+                           "0/5%/70%/600%, nlv 1..rank(X) = min(p, n-1 | n) (every third case nlv = rank); preprocessed X admitted with sigma_1/sigma_rank <= 1e3; "
+                           "a case = one fitted model; distinct key = (shape, p, ny, nlv, xscaling, yscaling, class); non-trivial iff ny > 1 and nlv > 1")
         ctx.cov["observed_max"] = dict(ctx.cov.get("observed_max", {}), **{k: v for k, v in maxima.items()})
-        ctx.cov["tolerance"] = dict(TolAlg=1e-8)
+        ctx.cov["tolerance"] = dict(TolAlg=1e-8, TolY="1e-8 + 1e-15 * floor(offy/1000)*1000", TolXfull="1e-8 + n * 1e-12 * floor(offx/4000)")
 
         def on_reject(ev, idx, block):
             sig, what = _sig(ev)
-            ctx.violation(sig, what, dict(kind="case", seed=seed, idx=ev.get("case"), event=ev))
+            if ev.get("e") == "Fit":
+                raise InfraError("c03 generator / class tags left the ledger's quantifier (machinery, not a verdict): %s" % ev)
+            stated = ev.get("cx", {}).get("inst", 1) == 1 and ev.get("e") not in EXTRA_EVENTS
+            ctx.cov.setdefault("rejected_event_kinds", [])
+            if ev.get("e") not in ctx.cov["rejected_event_kinds"]:
+                ctx.cov["rejected_event_kinds"].append(ev.get("e"))
+            if stated:
+                ctx.violation(sig, what, dict(kind="case", seed=seed, idx=ev.get("case"), event=ev))
+            else:
+                # behaviour the specification models but the statement does not cover (rank below the shape's bound; xvarexp; repeat fit)
+                ctx.extra(sig + ("" if ev.get("e") in EXTRA_EVENTS else ":rank-deficient"), what)
             return lambda e: _sig(e)[0] == sig and e.get("e") == ev.get("e") and _would_fail(e)
-        ledgerkit.check(ctx, "TracePls", "Trace_Pls.cfg", "Trace_Pls_prop.cfg", events, on_reject, "trace_pls")
+        # the refit-into-a-used-model events (extra layer) are validated as a small trace of their own: Reset, Fit, Refit per history case
+        main = [e for e in events if e["e"] != "Refit"]
+        side = []
+        for b in blocks:
+            if any(e["e"] == "Refit" for e in b):
+                side += [e for e in b if e["e"] in ("Reset", "Fit", "Refit")]
+        ledgerkit.check(ctx, "TracePls", "Trace_Pls.cfg", "Trace_Pls_prop.cfg", main, on_reject, "trace_pls")
+        if side:
+            ledgerkit.check(ctx, "TracePls", "Trace_Pls.cfg", "Trace_Pls_prop.cfg", side, on_reject, "trace_pls_refit")
         ctx.traces(len(fits))
         # (V) variant agreement
         variant, nd = infer_variant(events)
@@ -170,6 +346,21 @@ def conformance(ctx, total, parts, first=0, only=None):
                 ctx.note("(V) residual columns follow neither col %% ny nor floor(col / nlv)")
         elif only is None:
             raise InfraError("no residual column discriminates the two rules: generator lost its ny>1, nlv>1 cases")
+        store, nw = infer_store(events)
+        if store is not None:
+            ctx.cov["storage_loop_inferred"] = dict(variant=store, wide_latent_variables=nw)
+            if store in ("own", "fused_objects"):
+                r = store_model(ctx, rd, store)
+                ctx.note("(V) storage loop inferred from %d latent variables of real models with fewer objects than variables: %s; PlsStore.tla with that loop: %s"
+                         % (nw, store, "holds" if r.ok else "violates %s" % r.violation))
+                if (store == "own") != r.ok:
+                    raise InfraError("variant agreement broken: storage loop %s but model says ok=%s" % (store, r.ok))
+                if not r.ok and not ctx.violations:
+                    raise InfraError("the implemented storage loop violates the storage model but no real run was rejected: binding lost")
+            else:
+                ctx.note("(V) rows of xloadings / xweights beyond the objects are written for some wide models and not for others")
+        elif only is None:
+            raise InfraError("no model with fewer objects than variables: generator lost its wide cases")
         return events
     finally:
         shutil.rmtree(rd, ignore_errors=True)
@@ -177,62 +368,121 @@ def conformance(ctx, total, parts, first=0, only=None):
 
 def _would_fail(e, impl=True):
     """same-signature duplicates are dropped only when they fail the same way (keeps the rest of the trace under check)"""
-    k = e.get("e")
+    k, cx = e.get("e"), e.get("cx", {})
     if k == "Lv":
         return any(e.get(f, 0) > TOL for f in (STRUCT + IMPL if impl else STRUCT))
     if k == "Col":
-        return e["found"] != e["col"] or e["recalcErr"] > TOL or e["allErr"] > TOL
+        return e["found"] != e["col"] or e["recalcErr"] > _tol_y(cx) or e["allErr"] > _tol_y(cx)
     if k == "Resid":
         return e["residErr"] > TOL or e["against"] != e["j"]
     if k == "Tab":
         return True
     if k == "End":
-        return e.get("xfull", 0) > TOL
+        return e.get("xfull", 0) > _tol_xfull(cx)
+    if k == "Prep":
+        return e["xavg"] > _tol_xfull(cx) or e["yavg"] > _tol_meany(cx) or (impl and (e["xscl"] > _tol_xfull(cx) or e["yscl"] > _tol_meany(cx)))
+    if k == "Score":
+        return e["err"] > TOL or e["got"] != min(e["req"], cx.get("nlv", 0))
+    if k == "YPred":
+        return e["err"] > _tol_y(cx)
+    if k == "AllLv":
+        return e["scoreErr"] > TOL or e["err"] > _tol_y(cx) or e["cols"] != cx.get("ny", 0) * cx.get("nlv", 0) or e["scols"] != cx.get("nlv", 0)
+    if k == "VarExp":
+        return e["err"] > TOL
+    if k == "Hist":
+        return e["same"] != 1
+    if k == "Refit":
+        return e["rc"] != 0 or e["bsize"] != cx.get("nlv") or e["reccols"] != cx.get("ny", 0) * cx.get("nlv", 0) or e["varexp"] != cx.get("nlv") or e["same"] != 1
     return True
 
 
 def selftests(ctx, events):
-    # the div_nlv rule must be refuted by the model (the invariant is not vacuous)
+    # the div_nlv rule and the fused storage loop must be refuted by the models (the invariants are not vacuous)
     rd = tlc.rundir()
     try:
         r = variant_model(ctx, rd, "div_nlv")
         if r.ok or r.violation != "ResidualAgainstOwnResponse":
             raise InfraError("Layout.tla no longer refutes the rule floor(col / nlv)")
         ctx.note("Layout.tla refutes the rule floor(col / nlv): %s" % " ".join(r.trace_text.split()[8:16]))
+        r = store_model(ctx, rd, "fused_objects")
+        if r.ok or r.violation not in ("EveryCellStored", "ThLost"):
+            raise InfraError("PlsStore.tla no longer refutes the storage pass fused over the objects")
+        ctx.note("PlsStore.tla refutes the storage pass fused over the objects: %s" % " ".join(r.trace_text.split()[8:20]))
     finally:
         shutil.rmtree(rd, ignore_errors=True)
-    # binding: one logged residual multiplied by 1e6 must be rejected
-    blocks = [b for b in tlc.split_blocks(events) if not any(e["e"] in ("Abort", "Shape") for e in b)][:12]
-    ev = [e for b in blocks for e in b]
-    ev = [e for e in ev if not ((e["e"] in ("Resid", "Col", "Lv", "End", "Tab")) and _would_fail(e, impl=False))]    # validated with the property layer only
+    # binding: one corrupted field per event kind must be rejected by the property layer
+    good = [b for b in tlc.split_blocks(events) if not any(e["e"] in ("Abort", "Shape", "Skip") for e in b)]
+    pick = good[:10] + [b for b in good[10:] if any(e["e"] in ("Hist", "Tab") for e in b)][:4] + \
+        [b for b in good[10:] if any(e["e"] == "Fit" and e["shape"] in ("wide", "wide1") and e["nlv"] == e["rank"] for e in b)][:3]
+    ev = [e for b in pick for e in b]
+    ev = [e for e in ev if not ((e["e"] in ("Prep", "Resid", "Col", "Lv", "End", "Tab", "Score", "YPred", "AllLv", "VarExp", "Hist", "Refit")) and _would_fail(e, impl=False))]    # validated with the property layer only
 
-    def corrupt_lv(evs):
-        for e in evs:
-            if e["e"] == "Lv" and e["a"] >= 2:
-                e["tortho"] = min(2000000000, max(1, e["tortho"]) * 1000000)
-                return True
-        return False
+    def bump(kind, field, cond=lambda e: True):
+        def f(evs):
+            for e in evs:
+                if e["e"] == kind and cond(e):
+                    e[field] = min(2000000000, max(1, e[field]) * 1000000)
+                    return True
+            return False
+        return kind, f
 
-    def corrupt_resid(evs):
-        for e in evs:
-            if e["e"] == "Resid":
-                e["residErr"] = min(2000000000, max(1, e["residErr"]) * 1000000)
-                return True
-        return False
-    trace.binding_selftest(ctx, "TracePls", "Trace_Pls_prop.cfg", ev, corrupt_lv, "binding_tortho_x1e6")
-    trace.binding_selftest(ctx, "TracePls", "Trace_Pls_prop.cfg", ev, corrupt_resid, "binding_residErr_x1e6")
+    def setv(kind, field, fn, cond=lambda e: True):
+        def f(evs):
+            for e in evs:
+                if e["e"] == kind and cond(e):
+                    e[field] = fn(e)
+                    return True
+            return False
+        return kind, f
+    wide = lambda e: e.get("cx", {}).get("shape") in ("wide", "wide1")
+    tests = [
+        ("binding_tortho_x1e6", bump("Lv", "tortho", lambda e: e["a"] >= 2)),
+        ("binding_wortho_wide_x1e6", bump("Lv", "wortho", lambda e: e["a"] >= 2 and wide(e))),
+        ("binding_residErr_x1e6", bump("Resid", "residErr")),
+        ("binding_prep_ycentring_x1e6", bump("Prep", "yavg")),
+        ("binding_score_err_x1e6", bump("Score", "err")),
+        ("binding_score_columns", setv("Score", "got", lambda e: e["got"] + 1, lambda e: e["req"] > e.get("cx", {}).get("nlv", 99))),
+        ("binding_ypred_err_x1e6", bump("YPred", "err", lambda e: e["src"] == 1)),
+        ("binding_ypred_overask_x1e6", bump("YPred", "err", lambda e: e["a"] > e.get("cx", {}).get("nlv", 99))),
+        ("binding_alllv_scores_x1e6", bump("AllLv", "scoreErr")),
+        ("binding_alllv_columns", setv("AllLv", "cols", lambda e: e["cols"] + 1)),
+        ("binding_varexp_x1e6", bump("VarExp", "err")),
+        ("binding_hist_differs", setv("Hist", "same", lambda e: 0)),
+        ("binding_xfull_wide_x1e6", bump("End", "xfull", lambda e: e["full"] == 1 and wide(e))),
+        ("binding_end_full_flag", setv("End", "full", lambda e: 0, lambda e: e["full"] == 1)),
+        ("binding_fit_shape_tag", setv("Fit", "shape", lambda e: "tall", lambda e: e["shape"] in ("wide", "wide1"))),
+        ("binding_fit_rank_above_bound", setv("Fit", "rank", lambda e: e["rank"] + 1, lambda e: e["inst"] == 1)),
+        ("binding_fit_nlv_above_rank", setv("Fit", "nlv", lambda e: e["rank"] + 1)),
+        ("binding_fit_inst_flag", setv("Fit", "inst", lambda e: 1 - e["inst"])),
+        ("binding_refit_bsize", setv("Refit", "bsize", lambda e: e["bsize"] + 1)),
+    ]
+    # an event kind whose recorded events were rejected in this very run (reported above) may leave nothing acceptable to corrupt:
+    # its rejection IS the evidence of the binding; every other kind must offer a field
+    rejected = set(ctx.cov.get("rejected_event_kinds", []))
+    todo = []
+    for label, (kind, corrupt) in tests:
+        if not corrupt(copy.deepcopy(ev)):
+            if kind in rejected:
+                ctx.note("%s: every recorded %s event of the sample was rejected by TLC in this run; nothing left to corrupt" % (label, kind))
+                continue
+            raise InfraError("binding self-test could not find a field to corrupt (%s)" % label)
+        todo.append((label, corrupt))
+    with ThreadPoolExecutor(max_workers=min(4, int(os.environ.get("VERIF_WORKERS", "4")))) as ex:      # one JVM start each: run a few side by side
+        for f in [ex.submit(trace.binding_selftest, ctx, "TracePls", "Trace_Pls_prop.cfg", ev, corrupt, label) for label, corrupt in todo]:
+            f.result()
+    ctx.note("binding self-tests: %d corrupted traces, all rejected by TLC" % len(todo))
 
 
 def run(ctx):
     ctx.assumptions += [
         "the numeric residuals are evaluated by the harness in double precision against its own preprocessing / deflation / back-transform and logged as integers (1e-12 units, saturating); TLC decides every comparison and the layout arithmetic",
-        "sampled inputs (seeded), each model's trace validated by TLC; TolAlg = 1e-8 relative (DESIGN section 0), worst values observed on this run are recorded under coverage.observed_max",
-        "inputs are admitted inside the quantifier only: full column rank with cond(preprocessed X) <= 1e3 (LAPACK dgesdd), non-constant responses, scale factors >= 0.05 (zero-scale guards are C10's business), nlv <= rank",
+        "sampled inputs (seeded), each model's trace validated by TLC; TolAlg = 1e-8 relative (DESIGN section 0) plus the representability terms of Pls.tla (0 below 1000 spreads of offset), worst values observed on this run are recorded under coverage.observed_max",
+        "inputs are admitted inside the quantifier only: numerical rank of the preprocessed X (LAPACK dgesdd, gap 1e3) equal to the largest rank its shape allows with sigma_1/sigma_rank <= 1e3 (rank-deficient X: extra layer), non-constant responses, scale factors >= 0.05 on scaled blocks (zero-scale guards are C10's business), nlv <= rank",
         "every fit runs in a child process with one processor (hook H2), a NIPALS iteration budget (hook H4) and a watchdog; a fit that does not return is reported as a violation with its case",
         "ASan/UBSan build: any sanitizer report during a fit is a violation",
     ]
     model_part(ctx)
-    events = conformance(ctx, 400 if ctx.quick else 40000, 8 if ctx.quick else 16)
+    events = conformance(ctx, 800 if ctx.quick else 32000, 8 if ctx.quick else 16)
     try:
         selftests(ctx, events)
     except InfraError as e:
